@@ -16,7 +16,23 @@ def generate(rng, tier):
     cases = []
     for i in range(n):
         win = ["grid", "between", "outside", "lo_only", "hi_only", "hi_grid", "none", "near", "near"][i % 9]
-        c = F.gen_ft_case(rng, tier, lorch=(i % 3 == 0), channel=2, win=win)
+        c = F.gen_ft_case(rng, tier, lorch=(i % 3 == 0), channel=2, win=win, unsorted=(i % 6 == 5),
+                          omitted=(i % 7 == 3 and win in ("grid", "lo_only", "near")))
+        if c["omitted"]:      # keep Qmin > 0 and the r grid away from the singular points of the closed form
+            sh = 0.4 - min(c["xin"]) if min(c["xin"]) < 0.4 else 0.0
+            c["xin"] = [v + sh for v in c["xin"]]
+            c["xmin"] = None if c["xmin"] is None else c["xmin"] + sh
+            c["xmax"] = None if c["xmax"] is None else c["xmax"] + sh
+            c["xout"] = [abs(v) + 0.05 for v in c["xout"]]
+            c["int_dtype"] = [False, c["int_dtype"][1], False]
+            if c["lorch"]:
+                c["lorch"] = False
+                c["desc"]["lorch"] = False
+            lo_ = c["xmin"] if c["xmin"] is not None else min(c["xin"])
+            hi_ = c["xmax"] if c["xmax"] is not None else max(c["xin"])
+            if not any(lo_ <= v <= hi_ for v in c["xin"]):     # an empty window has no Qmin: the option is undefined there
+                c["omitted"] = False
+                c["desc"]["omitted"] = False
         if i % 10 == 4 and len(c["xin"]) >= 3:
             # a grid with points on both sides of zero and a window edge exactly at 0.0
             k = len(c["xin"]) // 2
